@@ -86,6 +86,8 @@ impl Database {
             names.reset();
         }
         zones.reset();
+        #[cfg(jiff_verif)]
+        crate::__verif::event(crate::__verif::CONCATENATED_RESET);
     }
 
     pub(crate) fn get(&self, query: &str) -> Option<TimeZone> {
@@ -113,6 +115,10 @@ impl Database {
                         czone.expiration,
                         czone.last_modified,
                     );
+                    #[cfg(jiff_verif)]
+                    crate::__verif::event(
+                        crate::__verif::CONCATENATED_FAST_HIT,
+                    );
                     return Some(czone.tz.clone());
                 }
             }
@@ -136,6 +142,8 @@ impl Database {
         // that avoids doing I/O while holding a lock, but it seems a lot more
         // complicated. (And what happens if the I/O becomes outdated by the
         // time you acquire the lock?)
+        #[cfg(jiff_verif)]
+        crate::__verif::event(crate::__verif::CONCATENATED_BETWEEN_LOCKS);
         let mut zones = self.zones.write().unwrap();
         let ttl = zones.ttl;
         match zones.get_zone_index(query) {
@@ -144,9 +152,15 @@ impl Database {
                 if czone.revalidate(path, ttl) {
                     // Metadata on the file didn't change, so we assume the
                     // file hasn't either.
+                    #[cfg(jiff_verif)]
+                    crate::__verif::event(
+                        crate::__verif::CONCATENATED_REVALIDATE_OK,
+                    );
                     return Some(czone.tz.clone());
                 }
                 // Revalidation failed. Re-read the TZif data.
+                #[cfg(jiff_verif)]
+                crate::__verif::event(crate::__verif::CONCATENATED_RELOAD);
                 let (scratch1, scratch2) = zones.scratch();
                 let czone = match CachedTimeZone::new(
                     path, query, ttl, scratch1, scratch2,
@@ -184,6 +198,8 @@ impl Database {
                 };
                 let tz = czone.tz.clone();
                 zones.zones.insert(i, czone);
+                #[cfg(jiff_verif)]
+                crate::__verif::event(crate::__verif::CONCATENATED_INSERT);
                 Some(tz)
             }
         }
@@ -468,6 +484,8 @@ impl NamesInner {
     fn refresh(&mut self, path: &Path) {
         // PERF: Should we try to move this tzdb handling to run outside of a
         // lock? It probably happens pretty rarely, so it might not matter.
+        #[cfg(jiff_verif)]
+        crate::__verif::event(crate::__verif::CONCATENATED_NAMES_REFRESH);
         let result = read_names_and_version(path, &mut self.scratch);
         self.expiration = Expiration::after(self.ttl);
         match result {
